@@ -96,9 +96,13 @@ def h_build(shape):
                         tmpl.build(**dict(bad, **({"qubits": P["qubits"]} if P.get("qubits") else {})))
                     except Exception:  # noqa: BLE001
                         pass
-                direct = c04.build_program(inp, dict(P, vars=None, reg=P.get("direct_reg", P.get("reg", "reg3"))), env=vals)
+                # (a mappable register is resolved to OTHER traps in the second build)
+                alt = bool(P.get("qubits_alt")) and len(builds) == 1
+                qmap = P["qubits_alt"] if alt else P.get("qubits")
+                dreg = P["direct_reg_alt"] if alt else P.get("direct_reg", P.get("reg", "reg3"))
+                direct = c04.build_program(inp, dict(P, vars=None, reg=dreg), env=vals)
                 try:
-                    b = tmpl.build(**dict(vals, **({"qubits": P["qubits"]} if P.get("qubits") else {})))
+                    b = tmpl.build(**dict(vals, **({"qubits": qmap} if qmap else {})))
                 except Exception:  # noqa: BLE001  (the direct construction with these values succeeded)
                     obs.append(("build:accepts_what_direct_construction_accepts", False))
                     return obs
